@@ -334,9 +334,28 @@ func (c c33WebCase) id() string {
 }
 
 func c33WebHosts(e c33Endpoints) []string {
+	var out []string
+	for _, h := range c33WebHostCandidates(e) {
+		name := h
+		if i := strings.LastIndex(name, ":"); i > 0 && !strings.HasSuffix(name, "]") {
+			name = name[:i]
+		}
+		// a name below the API endpoint that is not below the website endpoint is a legitimate
+		// virtual-hosted API address (with the default domains: anything ".localhost"), not a part-B host
+		if strings.HasSuffix(name, "."+e.API) && !strings.HasSuffix(name, "."+e.Web) && name != e.Web {
+			continue
+		}
+		out = append(out, h)
+	}
+	return out
+}
+
+func c33WebHostCandidates(e c33Endpoints) []string {
 	return []string{
 		"bkt." + e.Web, "bkt." + e.Web + ":8080", "plain." + e.Web, "nosuch." + e.Web, "b.c.d." + e.Web,
 		e.Web, e.Web + ":8080", "www.example.com", "www.example.com:8080", "unknown.example.org", "[::1]:9000", "192.0.2.7",
+		// custom domains that merely END in the characters of an endpoint, without a label boundary
+		"x" + e.API, "media-" + e.API + ":8080", "x" + e.Web, "bkt.x" + e.API,
 	}
 }
 
@@ -657,7 +676,7 @@ func TestC33(t *testing.T) {
 	run.Cov["part_a_worlds"] = worldsA
 	run.Cov["evaluations_part_b_requests"] = evalsB
 	run.Cov["distinct_nontrivial"] = len(distinct)
-	run.Cov["rule"] = "A: endpoint pair{siblings,defaults} x bucket{bkt,my-bucket,b.c.d} x port x (key list incl. trailing '/', '//', percent, space, non-ASCII, encoded '/') x 13 object operations + 20 bucket operations, each sent path-style and virtual-hosted (one world per style; the operations of one bucket/key run in lockstep on both, reads first; worlds are rebuilt after a divergence; the first mismatches of a class are confirmed on fresh worlds); non-trivial = at least one storage call was made. B: 12 website/custom-domain hosts per endpoint pair x 7 methods x paths x subresource queries x copy-source header; non-trivial = reaches storage or uses a non-safe method"
+	run.Cov["rule"] = "A: endpoint pair{siblings,defaults} x bucket{bkt,my-bucket,b.c.d} x port x (key list incl. trailing '/', '//', percent, space, non-ASCII, encoded '/') x 13 object operations + 20 bucket operations, each sent path-style and virtual-hosted (one world per style; the operations of one bucket/key run in lockstep on both, reads first; worlds are rebuilt after a divergence; the first mismatches of a class are confirmed on fresh worlds); non-trivial = at least one storage call was made. B: 16 website/custom-domain hosts per endpoint pair (incl. names that end in an endpoint without a label boundary) x 7 methods x paths x subresource queries x copy-source header; non-trivial = reaches storage or uses a non-safe method"
 	run.Cov["part_a_status_differs_only"] = statusOnly
 	run.Cov["part_b_requests_reaching_storage"] = reached
 	run.Cov["part_b_mutating_storage_calls_attempted"] = mutAttempt
